@@ -67,4 +67,9 @@ META = {
         "note": "Trusted: as C07. Asynchronous (signal) cancel delivery is modelled at yield-point granularity.",
         "design_ref": "DESIGN.md §4 C09",
     },
+    "C25": {
+        "text": "Refinement of the per-coroutine storage to a map (put returns the previous value, get the latest, remove returns and deletes), privacy (no operation on one coroutine changes another's lookups) and a counting invariant proving every value ever stored is dropped exactly once (by the caller on overwrite/remove, or with its coroutine), for every operation history. Tie: histories over several real coroutines with drop-counting values; outputs and final per-value drop counts compared.",
+        "note": "Trusted: Lean kernel; model; DashMap; values read back with their stored type.",
+        "design_ref": "DESIGN.md §4 C25",
+    },
 }
